@@ -1,5 +1,5 @@
 def _jobs(tier):
-    mult = 1 if tier == "quick" else 20
+    mult = 1 if tier == "quick" else 80
     jobs = []
     for k in range(1, 63):
         jobs.append(dict(sub="vec", count=4000 * mult, fix=dict(k=k, kN=(1, 6))))
